@@ -11,7 +11,9 @@ Require Import UV.C04.Model UV.C04.Proofs UV.C04.ProofsLazy UV.C04.ProofsLive UV
    the recorder's main thread and writer run interleaved in any order (`sched`); at any point the message
    pipe may be closed (label LPC: mcount_trace_finish of a finish / signal trigger, REC_END / REC_START are
    lost from then on) and between two hook calls the thread may end its recording (LD / LDC: mtd_dtor of a
-   normal thread end / after a finish or signal trigger); the tracee is killed or the recording is ended at
+   normal thread end / after a finish or signal trigger), or the task may exec() a new image (LX: the old image's
+   buffer stays announced, the new image sets up a ring of its own and sends TASK_START; the recorder's
+   flush_old_shmem takes the first announced buffer of the tid); the tracee is killed or the recording is ended at
    an arbitrary point (= `sched` ends); then the recorder drains
    the pipe, runs flush_shmem_list and record_remaining_buffer.  The data file then consists of
    whole records: exactly those completely stored, in order - a prefix of what the thread was
@@ -76,6 +78,17 @@ Theorem C04_prefix_faithful_machine : forall setup cap recs sched,
   ok_prefix recs (file (finish (fst (frun true cap sched (start setup recs, false))))) = true.
 Proof. exact prefix_faithful. Qed.
 Print Assumptions C04_prefix_faithful_machine.
+
+(* exec: the one data file of the task is what the old image stored completely, followed by what the new image
+   stored completely - whole records, in order, a prefix of what the task executed *)
+Theorem C04_exec_old_then_new : forall setup cap recs before after,
+  let s1 := run true cap before (start setup recs) in
+  let s := run true cap (before ++ [LX] ++ after) (start setup recs) in
+  exists new, done s = done s1 ++ new
+              /\ match_recs (done s1 ++ new) (file (finish s)) = true
+              /\ exists rest, recs = done s1 ++ new ++ rest.
+Proof. exact exec_old_then_new. Qed.
+Print Assumptions C04_exec_old_then_new.
 
 (* both variants at once: the file is the stored records plus `extra` (empty for the code as it is) *)
 Theorem C04_prefix_general : forall setup single cap recs sched,
